@@ -28,7 +28,7 @@ USER = ["x", "y", "z", "tok"]
 FREE = ["a", "b", "c", "d"]
 
 
-def gen_sig(rnd, n_pos):
+def gen_sig(rnd, n_pos, collide=False):
     """A signature that is unambiguous for calls with exactly n_pos positional arguments and any
     subset of the user keyword names (see module doc)."""
     sig = []
@@ -39,8 +39,19 @@ def gen_sig(rnd, n_pos):
     n_po = rnd.randint(0, min(2, npar)) if rnd.random() < 0.3 else 0
     for i in range(npar):
         kinds.append("po" if i < n_po else "pk")
+    collide_at = None
+    if collide and n_pos >= 1 and npar >= 1:
+        collide_at = rnd.randrange(min(n_pos, npar))
     for i, kind in enumerate(kinds):
-        if i < n_pos:
+        if i == collide_at and kind == "pk":
+            # a positional slot whose parameter may ALSO be supplied by keyword: the parameter gets the
+            # keyword's value (on this both readings of the statement agree); where the displaced
+            # positional argument goes is not compared (DESIGN section 4.7)
+            nm = rnd.choice([n for n in USER if n not in used])
+            p = P(nm, kind)
+            if sig and "default" in sig[-1]:
+                p["default"] = None
+        elif i < n_pos:
             nm = free.pop(0)  # filled positionally: never a name that is also supplied by keyword
             p = P(nm, kind)
             if rnd.random() < 0.3:
@@ -92,22 +103,31 @@ def expected_binding(sig, args, kwargs, builtins):
     pos = list(args)
     i = 0
     named = set()
+    unchecked = False
     for p in sig:
         if p["kind"] not in ("po", "pk"):
             continue
         if i < len(pos):
-            out[p["name"]] = pos[i]
+            if p["kind"] == "pk" and p["name"] in K:
+                out[p["name"]] = K[p["name"]]
+                named.add(p["name"])
+                unchecked = True  # from here on the two readings place positional arguments differently
+                i += 1
+                continue
+            out[p["name"]] = ("$unchecked",) if unchecked else pos[i]
             i += 1
         elif p["kind"] == "pk" and p["name"] in K:
             out[p["name"]] = K[p["name"]]
             named.add(p["name"])
         elif "default" in p:
             out[p["name"]] = ("$default", p["default"])
+        elif unchecked:
+            out[p["name"]] = ("$unchecked",)
         else:
             return None
     for p in sig:
         if p["kind"] == "var":
-            out[p["name"]] = ("$tuple", pos[i:])
+            out[p["name"]] = ("$unchecked",) if unchecked else ("$tuple", pos[i:])
         elif p["kind"] == "ko":
             if p["name"] in K:
                 out[p["name"]] = K[p["name"]]
@@ -145,6 +165,8 @@ def binder(m, ctx, r, item):
     b = r["b"]
     for name, want in exp.items():
         got = b.get(name, "$absent")
+        if isinstance(want, tuple) and want[0] == "$unchecked":
+            continue
         if isinstance(want, tuple) and want[0] == "$default":
             want = _encv(want[1])
         elif isinstance(want, tuple) and want[0] == "$tuple":
@@ -174,7 +196,7 @@ def binder(m, ctx, r, item):
         m.add("bind.param", n, cb=r["c"], param=extra[0], expected="$absent", actual=b[extra[0]])
 
 
-def make_program(rnd, n_pos, name="M0", module="simgen_m0", pyname=None):
+def make_program(rnd, n_pos, name="M0", module="simgen_m0", pyname=None, collide=False):
     ns = rnd.randint(2, 3)
     ids = [f"s{i}" for i in range(ns)]
     events = rnd.sample(["ev", "go", "tick"], rnd.randint(1, 2))
@@ -200,18 +222,18 @@ def make_program(rnd, n_pos, name="M0", module="simgen_m0", pyname=None):
             k += 1
             t.setdefault(g, []).append(nm)
             role = rnd.choice(["machine", "machine", "model", "L0"])
-            prog["cbs"][f"{role}.{nm}"] = {"group": g, "sig": gen_sig(rnd, n_pos)}
+            prog["cbs"][f"{role}.{nm}"] = {"group": g, "sig": gen_sig(rnd, n_pos, collide and rnd.random() < 0.5)}
     for nm, g in names:
         if rnd.random() < 0.45:
             role = rnd.choice(["machine", "machine", "model", "L0"])
-            prog["cbs"][f"{role}.{nm}"] = {"group": g, "sig": gen_sig(rnd, n_pos)}
+            prog["cbs"][f"{role}.{nm}"] = {"group": g, "sig": gen_sig(rnd, n_pos, collide and rnd.random() < 0.5)}
     if not prog["cbs"]:
         prog["cbs"]["machine.on_transition"] = {"group": "on", "sig": gen_sig(rnd, n_pos)}
     for m in prog["cbs"].values():
         if m["group"] == "enter":
             # the initial activation carries no arguments: every parameter needs another source
             for q in m["sig"]:
-                if q["kind"] in ("po", "pk") and q["name"] in FREE:
+                if q["kind"] in ("po", "pk") and q["name"] not in BUILTINS:
                     q.setdefault("default", None)
             seen_default = False
             for q in m["sig"]:
@@ -277,14 +299,17 @@ class C07(Campaign):
             "between. Every recorded invocation is compared with an independent binder. Non-trivial = >=1 callback "
             "with >=2 parameters of different kinds was invoked for >=2 different events; distinct = distinct digests.")
     assumptions = [
-        "only (signature, call) pairs on which the positional and remaining-order readings of the statement agree",
+        "parameters on which the positional and the remaining-order readings of the statement disagree are not "
+        "compared: after a positional slot whose parameter is also supplied by keyword, later positional parameters "
+        "and *args are skipped (the parameter itself must receive the keyword's value under both readings)",
         "every required parameter has a source; positional-only parameters never share a name with a keyword",
         "signature/call shape coverage is seeded sampling, not a schedule-dependent search (DESIGN §3 C07)",
     ]
 
     def scenario(self, rnd, tier):
         n_pos = rnd.choice([0, 0, 1, 2, 3, 4])
-        prog = make_program(rnd, n_pos)
+        collide = n_pos >= 1 and rnd.random() < 0.35
+        prog = make_program(rnd, n_pos, collide=collide)
         programs = [prog]
         twin = None
         if rnd.random() < 0.4:
@@ -310,6 +335,8 @@ class C07(Campaign):
             for nm in USER:
                 if rnd.random() < 0.5:
                     kw[nm] = f"k{uniq[0]}_{nm}"
+                    if rnd.random() < 0.25:
+                        kw[nm] = rnd.choice([None, 0, "", False, []])
             if rnd.random() < 0.35:
                 for nm in rnd.sample(BUILTINS, rnd.randint(1, 3)):
                     kw[nm] = "HACK"
@@ -375,7 +402,9 @@ class C07(Campaign):
         for p_ in sc["programs"]:
             for m_ in p_["cbs"].values():
                 pos = [q for q in m_.get("sig", []) if q["kind"] in ("po", "pk")]
-                if any(q["name"] not in FREE for q in pos[:n_pos]):
+                if sum(1 for q in pos[:n_pos] if q["name"] not in FREE and q["name"] not in USER) > 0:
+                    bad_sig = True
+                if sum(1 for q in pos[:n_pos] if q["name"] in USER) > 1:
                     bad_sig = True
                 if any(q["name"] not in FREE and q["kind"] == "po" for q in pos):
                     bad_sig = True
